@@ -134,6 +134,9 @@ class Gen(object):
         if k == "text":
             if name == "Unique Identifier":
                 return {"k": "text", "v": self.uid(False)}
+            if self.profile.get("inject_format") and self.p(0.2):
+                # client-chosen text that means something to str.format / % if the server ever uses it as a template
+                return {"k": "text", "v": self.ch(INJECT)}
             if name == "Operation Policy Name":
                 return {"k": "text", "v": self.ch(POLICY_NAMES)}
             if name == "Object Group":
@@ -142,6 +145,8 @@ class Gen(object):
         if k == "bool":
             return {"k": "bool", "v": self.p(0.5)}
         if k == "name":
+            if self.profile.get("inject_format") and self.p(0.1):
+                return {"k": "name", "v": self.ch(INJECT), "t": 1}
             return {"k": "name", "v": self.ch(NAMES), "t": 1 if self.p(0.9) else 2}
         if k == "appinfo":
             return {"k": "appinfo", "ns": self.ch(["ssl", "ns2"]), "d": self.ch(["www", "d2"])}
@@ -465,6 +470,9 @@ def random_policies(g):
     if g.p(0.2):
         pol.append(["missing", {"preset": None, "groups": None}])
     return pol
+
+
+INJECT = ["{0}", "{1}", "{2}", "{1.value}", "{0.value}", "{1!r}", "{}", "{managed_object}", "%s", "%(value)s", "%r %r"]
 
 
 def dumps(x):
